@@ -20,6 +20,16 @@ func (b Bundle) Fragment(mtu int) (bs []Bundle, err error) {
 		return
 	}
 
+	// A Bundle which already fits into the MTU, e.g., one with an empty payload, is returned as it is. The overhead
+	// calculated below is a worst case estimation and would otherwise split or refuse such a Bundle.
+	buff := new(bytes.Buffer)
+	if err = b.MarshalCbor(buff); err != nil {
+		return
+	} else if buff.Len() <= mtu {
+		bs = []Bundle{b}
+		return
+	}
+
 	var (
 		cborOverhead     = 2
 		extFirstOverhead int
@@ -90,8 +100,8 @@ func (b Bundle) Fragment(mtu int) (bs []Bundle, err error) {
 		i += fragPayloadBlockLen
 	}
 
-	if len(bs) == 1 {
-		bs = []Bundle{b}
+	if len(bs) == 0 {
+		err = fmt.Errorf("bundle with an empty payload exceeds MTU")
 	}
 
 	return
